@@ -51,6 +51,15 @@ def imax(a, b):
     return a if a >= b else b
 
 
+def is_funcdef(n):
+    return n is not None and isinstance(n, (ast.FunctionDef, ast.AsyncFunctionDef))
+
+
+def all_funcdefs(s: SeqOf(PyNode)) -> Bool:
+    """Every element is a function definition (true of everything find_all_functions returns)."""
+    return len(s) == 0 or (is_funcdef(s[0]) and all_funcdefs(s[1:]))
+
+
 # R(node, d, is_elif, doc): deepest control level reached in the subtree of `node` when `d` control structures enclose
 # it (0 if it contains none). doc=True: documented construct set, doc=False: the code's set.
 def r_node(n: PyNode, d: Int, is_elif: Bool, doc: Bool) -> Int:
@@ -175,7 +184,7 @@ def py_raw(func_node: PyNode) -> Int:
           types=dict(self=PyAnalyzerT, func_node=PyNode, tracker=TrackerT, stmt=PyNode), returns=TupleOf(Int, Int))
 class PyCalculateMaxDepth:
     def requires(self, func_node):
-        return func_node is not None
+        return is_funcdef(func_node)
 
     def reveals(self, func_node):
         return reveal(py_raw, func_node)
@@ -193,7 +202,7 @@ class PyCalculateMaxDepth:
 class PyCalculateMaxDepthDocumented:
     """Second view of the same function: the property-level clauses (not part of what callers assume)."""
     def requires(self, func_node):
-        return func_node is not None
+        return is_funcdef(func_node)
 
     def ensures_documented_depth(self, func_node, result):
         # property text / docs: "Nesting depth starts at 1 for the function body"  (expected to fail: known finding
@@ -216,6 +225,21 @@ class PyCalculateMaxDepthDocumented:
             imax(0, r_seq(func_node.body, 0, False)) == imax(tracker.max_depth, r_seq(rest, 0, False))
 
 
+def py_function_nodes(s):
+    return [node for node in s if isinstance(node, (ast.FunctionDef, ast.AsyncFunctionDef))]
+
+
+@lemma(props=["C01"], types=dict(s=SeqOf(PyNode)), name="python-collected-functions-are-function-definitions")
+def py_filter_funcdefs(s):
+    """(proof artefact) everything the isinstance filter of find_all_functions keeps is a function definition."""
+    if len(s) == 0:
+        return all_funcdefs(py_function_nodes(s))
+    ih(py_filter_funcdefs, s[1:])
+    if isinstance(s[0], (ast.FunctionDef, ast.AsyncFunctionDef)):
+        return py_function_nodes(s) == [s[0]] + py_function_nodes(s[1:]) and all_funcdefs(py_function_nodes(s))
+    return py_function_nodes(s) == py_function_nodes(s[1:]) and all_funcdefs(py_function_nodes(s))
+
+
 @contract(PY + "PythonNestingAnalyzer.find_all_functions", props=["C01"],
           types=dict(self=PyAnalyzerT, tree=PyNode, functions=SeqOf(PyNode), node=PyNode), returns=SeqOf(PyNode))
 class PyFindAllFunctions:
@@ -225,6 +249,12 @@ class PyFindAllFunctions:
 
     def value(self, tree):
         return [node for node in py_walk(tree) if isinstance(node, (ast.FunctionDef, ast.AsyncFunctionDef))]
+
+    def lemmas_only_function_definitions(self, tree):
+        return py_filter_funcdefs(py_walk(tree))
+
+    def ensures_only_function_definitions(self, tree, result):
+        return all_funcdefs(result)
 
     def inv0(self, tree, functions, rest):
         return [node for node in py_walk(tree) if isinstance(node, (ast.FunctionDef, ast.AsyncFunctionDef))] == \
@@ -655,6 +685,20 @@ def path_text(context):
     return path_str(context.file_path) if context.file_path is not None else ""
 
 
+class _SeverityValue(str):
+    """The value string of a Severity member that natively also compares equal to the member itself."""
+    def __eq__(self, other):
+        return getattr(other, "value", other) == str.__str__(self)
+
+    def __ne__(self, other):
+        return not self.__eq__(other)
+
+    __hash__ = str.__hash__
+
+
+SEV_ERROR = _SeverityValue("error")   # Severity.ERROR, the only severity
+
+
 def depth_message(name, depth):
     """Property text: the message states the depth."""
     return f"Function '{name}' has excessive nesting depth ({depth})"
@@ -668,7 +712,7 @@ def depth_suggestion(depth, limit):
 
 def nesting_violation(rule_id, context, line, column, name, depth, limit):
     """THE violation of a function: at its header line/column, message stating the depth."""
-    return violation_of(rule_id, path_text(context), line, column, depth_message(name, depth), "error",
+    return violation_of(rule_id, path_text(context), line, column, depth_message(name, depth), SEV_ERROR,
                         depth_suggestion(depth, limit))
 
 
@@ -683,7 +727,7 @@ class GenerateSuggestion:
           types=dict(self=BuilderT, func=PyNode, max_depth=Int, config=NestingConfigT, context=CtxT), returns=ViolationT)
 class CreateNestingViolation:
     def requires(self, func, max_depth, config, context):
-        return func is not None
+        return is_funcdef(func)
 
     def value(self, func, max_depth, config, context):
         return nesting_violation(self.rule_id, context, func.lineno, func.col_offset, func.name, max_depth, config.max_nesting_depth)
@@ -751,6 +795,18 @@ def _native_rule(obj):
 
 
 RuleT.native_post = _native_rule
+
+
+def _register_native_generators():
+    from pyvc import selftest
+    from src.linter_config.ignore import get_ignore_parser
+    selftest.OPAQUE_GENERATORS.setdefault("IgnoreDirectiveParser", lambda g: get_ignore_parser())
+
+
+try:
+    _register_native_generators()
+except Exception:  # noqa  (repository not importable at contract-load time: the cross-check then skips these units)
+    pass
 
 # inline suppression directives are property C04's subject: for C01 an uninterpreted predicate of the violation's
 # (rule id, line) and the file content
@@ -820,7 +876,7 @@ def py_verdicts(funcs: SeqOf(PyNode), limit: Int, rule_id: Str, context: CtxT) -
           returns=SeqOf(ViolationT))
 class ProcessPythonFunctions:
     def requires(self, functions, analyzer, config, context):
-        return config.max_nesting_depth >= 1 and self._violation_builder.rule_id == RULE_ID
+        return config.max_nesting_depth >= 1 and self._violation_builder.rule_id == RULE_ID and all_funcdefs(functions)
 
     def ensures_documented_verdicts(self, functions, analyzer, config, context, result):
         # property text (expected to fail with the analyzer: known finding C01-python-depth-offset-verdict)
@@ -843,7 +899,7 @@ class ProcessPythonFunctions:
         return result == py_verdicts(functions, config.max_nesting_depth, RULE_ID, context)
 
     def inv0(self, functions, config, context, violations, old, rest):
-        return self == old.self and config == old.config and context == old.context and \
+        return self == old.self and config == old.config and context == old.context and all_funcdefs(rest) and \
             py_verdicts(functions, config.max_nesting_depth, RULE_ID, context) == \
             violations + py_verdicts(rest, config.max_nesting_depth, RULE_ID, context)
 
@@ -1068,7 +1124,7 @@ def flip_rs(rule, fn, k, context):
 @lemma(props=["C01"], types=dict(rule=RuleT, fn=PyNode, analyzer=PyAnalyzerT, k=Int, context=CtxT), name="flip-python")
 def flip_py(rule, fn, analyzer, k, context):
     """Python (on the analyzer's depth, see C01-python-depth-offset): the verdict flips at exactly one limit value."""
-    if fn is None or k < 1 or rule._violation_builder.rule_id != RULE_ID or suppressed(RULE_ID, fn.lineno, context):
+    if not is_funcdef(fn) or k < 1 or rule._violation_builder.rule_id != RULE_ID or suppressed(RULE_ID, fn.lineno, context):
         return True
     a = call(P_PY, rule, [fn], analyzer, mk(NestingConfigT, max_nesting_depth=k, enabled=True), context)
     b = call(P_PY, rule, [fn], analyzer, mk(NestingConfigT, max_nesting_depth=k + 1, enabled=True), context)
